@@ -201,7 +201,10 @@ def extend_model(model: sites.SiteModel, base: str, sc: Scratch) -> None:
                     "0Dot slash\t./../../outside-secret.txt\n1Parent maildir\t/..\n0Fine\tinside.txt\n"
                     # no selector field: the display string is the selector
                     "0../../outside-secret.txt\t\n1../../SIBLING\t\n0/../outside-secret.txt\t\n0../../outside-secret.txt\n"
-                    "0..\\..\\outside-secret.txt\t\t\t\n")
+                    "0..\\..\\outside-secret.txt\t\t\t\n"
+                    # selectors that spell an absolute path of the host behind a doubled (or tripled) slash
+                    "0Host path\t/%(b)s/outside-secret.txt\n1Host dir\t/%(b)s/SIBLING\n0Host path 3\t//%(b)s/outside-secret.txt\n"
+                    "0%(b)s/outside-secret.txt\t\n" % {"b": base})
     # templates whose path expressions climb (the loaders a template is given walk the site's directories)
     model.tree.file("tpl/climb.html.tal", b"""<html><body>
 <ul><li tal:repeat="n root/../getchildrennames | nothing" tal:content="n">x</li></ul>
@@ -217,7 +220,9 @@ def extend_model(model: sites.SiteModel, base: str, sc: Scratch) -> None:
     model.tree.file("climbmap/inside.txt", "inside\n")
     model.add(b"/climbmap", "menu", tags=["dir", "climbing-content"])
     model.tree.file("climblinks/.Links", "Name=Up\nType=0\nPath=../../outside-secret.txt\n\nName=Up2\nType=0\nPath=./../../outside-secret.txt\n\n"
-                    "Name=Abs\nType=0\nPath=/../outside-secret.txt\nHost=+\nPort=+\n\nName=Sib\nType=1\nPath=~/../../SIBLING\n")
+                    "Name=Abs\nType=0\nPath=/../outside-secret.txt\nHost=+\nPort=+\n\nName=Sib\nType=1\nPath=~/../../SIBLING\n\n"
+                    "Name=Host path\nType=0\nPath=/%(b)s/outside-secret.txt\nHost=+\nPort=+\n\nName=Host dir\nType=1\nPath=/%(b)s/SIBLING\n"
+                    % {"b": base})
     model.tree.file("climblinks/real.txt", "real\n")
     # an archive in an archive, with a member named like the inner archive's index cache beside it
     inner = Tree().file("in.txt", "inner member\n").file("sub/deep.txt", "deep\n")
